@@ -244,6 +244,74 @@ def run_harness(binpath, pid, args, timeout=600, mem_kb=None, env=None):
 
 
 # ---------------------------------------------------------------------------------------------
+# Source pins: the hand-written models were validated against these exact sources (comments / formatting aside).
+# A change to a pinned file is NOT a violation; it makes the quick check as deep as the thorough one for the
+# properties whose modelled code it touches (the tie of a hand model is sampling, so more samples when the code moved).
+# ---------------------------------------------------------------------------------------------
+PINS = os.path.join(VERIF, "pins.json")
+_FAMILY = {
+    "micro": ["micro", "mini", "sexpr/ast", "concurrent", "example/peano"],
+    "gomini": ["gomini", "gomini/reflecttools", "gomini/concato", "gomini/regex", "sexpr/ast"],
+    "sexpr": ["sexpr", "sexpr/ast", "sexpr/lexer", "sexpr/parser", "sexpr/token", "sexpr/errors", "sexpr/util"],
+}
+_PROP_FAMILIES = {
+    "C01": ["micro"], "C02": ["micro"], "C03": ["micro"], "C09": ["micro"], "C10": ["micro"], "C19": ["micro"],
+    "C07": ["micro", "gomini"], "C08": ["micro", "gomini"], "C13": ["micro", "gomini"],
+    "C04": ["gomini"], "C05": ["gomini"], "C06": ["gomini"], "C11": ["gomini", "micro"], "C12": ["gomini"],
+    "C17": ["gomini"], "C18": ["gomini"], "C14": ["sexpr"], "C15": ["sexpr"], "C16": ["sexpr"],
+}
+
+
+def pinned_files(pid):
+    files = set()
+    for fam in _PROP_FAMILIES.get(pid, []):
+        for d in _FAMILY[fam]:
+            full = os.path.join(REPO, d)
+            if not os.path.isdir(full):
+                continue
+            for f in sorted(os.listdir(full)):
+                if (f.endswith(".go") and not f.endswith("_test.go")) or f.endswith(".bnf"):
+                    files.add(os.path.join(d, f))
+    for l in open(os.path.join(VERIF, "properties.jsonl")):
+        p = json.loads(l)
+        if p["id"] == pid:
+            files.update(p.get("anchors", {}).get("files", []))
+    return sorted(files)
+
+
+def source_hashes(files):
+    binp = os.path.join(BUILD, "srcpin")
+    if not os.path.exists(binp) or os.path.getmtime(binp) < os.path.getmtime(os.path.join(HARNESS, "cmd", "srcpin", "main.go")):
+        rc, out = run(["go", "build", "-o", binp, "./cmd/srcpin"], cwd=HARNESS, timeout=300, env=GOENV)
+        if rc != 0:
+            return None
+    rc, out = run([binp, REPO] + files, cwd=VERIF, timeout=120)
+    if rc != 0:
+        return None
+    res = {}
+    for l in out.splitlines():
+        parts = l.split(" ", 1)
+        if len(parts) == 2:
+            res[parts[1]] = parts[0]
+    return res
+
+
+def source_changes(pid):
+    """Files of this property's pinned set whose content differs from pins.json (added / removed files included)."""
+    if not os.path.exists(PINS):
+        return []
+    pins = json.load(open(PINS))
+    files = pinned_files(pid)
+    cur = source_hashes(files)
+    if cur is None:
+        return ["(source hashes could not be computed)"]
+    changed = [f for f in files if pins.get(f) != cur.get(f)]
+    gone = [f for f in pins if f not in cur and any(f.startswith(d + "/") and "/" not in f[len(d) + 1:]
+                                                   for fam in _PROP_FAMILIES.get(pid, []) for d in _FAMILY[fam])]
+    return sorted(set(changed + gone))
+
+
+# ---------------------------------------------------------------------------------------------
 # Findings, replays, evidence
 # ---------------------------------------------------------------------------------------------
 
